@@ -931,6 +931,27 @@ func (g *gen) entryAgrees() {
 			if (err == nil) != o.ok || (o.ok && v.Cmp(o.val) != 0) {
 				g.rep.Fail("c04-value-vs-entry", "Value.MtEntry and RDFEntry.ValueMtEntry differ", in)
 			}
+			// the encoding of a value survives the entry's binary form (the route a serialized merklizer takes): decode into an
+			// entry prepared with the same options, as Merklizer.UnmarshalBinary does
+			blob, err := e.MarshalBinary()
+			if err != nil {
+				return
+			}
+			p2, _ := merklize.Options{Hasher: h}.NewPath("")
+			e2, err := merklize.Options{Hasher: h}.NewRDFEntry(p2, "")
+			if err != nil {
+				return
+			}
+			g.rep.Evaluations++
+			g.rep.Count("entry-binary-roundtrip")
+			if err := e2.UnmarshalBinary(blob); err != nil {
+				g.rep.Fail("c04-entry-roundtrip", "an entry the library encoded does not decode: "+err.Error(), in)
+				return
+			}
+			v2, err := e2.ValueMtEntry()
+			if (err == nil) != o.ok || (o.ok && v2.Cmp(o.val) != 0) {
+				g.rep.Fail("c04-entry-roundtrip", fmt.Sprintf("the value encodes as %v before and %v after the entry's binary round trip", o.val, v2), in)
+			}
 		}()
 	}
 }
